@@ -26,7 +26,7 @@ PROBES = ["offset_after_reonset", "inset_after_offset", "same_name_different_val
           "case_variant_names", "delay_shifted_marker", "equal_onset_rows", "rows_shuffled", "scope_left_open_at_end",
           "unmatched_reported", "enumerated_short_history", "file_level_runs", "api_level_runs", "concurrent_order_matters",
           "def_expand_spelling", "noise_error_rows", "validator_object_reused", "marker_row_with_warning_only_tag",
-          "temporal_issue_row_label_checked"]
+          "temporal_issue_row_label_checked", "marker_in_row_without_onset"]
 RULE = ("Runs 0..N-1 enumerate every history of up to 3 (quick) / 4 (thorough) single-marker time points over "
         "{Onset,Offset,Inset} x {A, B/3} (exhaustive floor); the other runs are seeded histories of 2-10 time points with "
         "1-3 markers each over 1-3 definition names in plain / valued / case-variant spelling, driven through the API "
@@ -190,6 +190,12 @@ def generate(run_index, seed, tier):
         sc["shuffle"] = g.chance(0.3)
         if sc["shuffle"]:
             sc["rows"] = g.shuffled(sc["rows"])
+        if not sc["enumerated"] and g.chance(0.25):
+            # rows without a time (onset n/a): whatever markers they carry, they are not on the time line
+            for _ in range(g.pick([1, 1, 2])):
+                key = g.pick(keys)
+                txt = g.pick([_marker_text(g.pick(KINDS), g.pick(SPELL[key])), "Red", _marker_text("Offset", g.pick(SPELL[key]))])
+                sc["rows"].insert(g.randrange(len(sc["rows"]) + 1), ["n/a", txt])
         if g.chance(0.3):
             # the same SpreadsheetValidator object validated another file before (which leaves scopes open at its end)
             prev, t = [], 0.0
@@ -213,7 +219,7 @@ def shrink(sc):
         if sc.get("shuffle"):
             c = copy.deepcopy(sc)
             c["shuffle"] = False
-            c["rows"] = sorted(c["rows"], key=lambda r: float(r[0]))
+            c["rows"] = sorted(c["rows"], key=lambda r: float(r[0]) if r[0] != "n/a" else 1e18)
             c["history"] = None
             yield c
         for i, r in enumerate(sc["rows"]):
@@ -319,6 +325,8 @@ def _timepoints_from_rows(rows):
     """Independent reading of a file: effective time -> list of (kind, name)."""
     tps = {}
     for onset, hed in rows:
+        if onset == "n/a":
+            continue
         t0 = float(onset)
         for part in _split_top(hed):
             if not part.startswith("("):
@@ -408,6 +416,8 @@ def execute(sc, script=None):
             by_time = {}        # effective time -> rows that belong to that time point (own onset, or carrying a group that lands there)
             marks = []
             for ri, (onset, hed) in enumerate(sc["rows"]):
+                if onset == "n/a":
+                    continue
                 by_time.setdefault(round(float(onset), 6), set()).add(ri + 2)
                 for part in _split_top(hed):
                     t = float(onset)
@@ -431,6 +441,9 @@ def execute(sc, script=None):
                              "temporal-issue-row-label")
                         break
         other = [o for o in other if o not in ("ONSETS_UNORDERED", "TAG_EXPRESSION_REPEATED")]
+        if any(r[0] == "n/a" and "(" in r[1] for r in sc["rows"]):
+            # a marker in a row without a time is reported as such (and takes no part in the bookkeeping)
+            other = [o for o in other if not o.startswith("TEMPORAL_TAG_ERROR:Cannot have Temporal tags without")]
         trace.append([list(got), other])
         if any(o.startswith("TEMPORAL_TAG_ERROR") for o in other):
             viol("unexpected-issue", "the events table %s produced unclassifiable temporal issues %s" % (sc["rows"], other),
@@ -443,6 +456,8 @@ def execute(sc, script=None):
             probe("rows_shuffled")
         if any("Def-expand/" in r[1] for r in sc["rows"]):
             probe("def_expand_spelling")
+        if any(r[0] == "n/a" and "(" in r[1] for r in sc["rows"]):
+            probe("marker_in_row_without_onset")
         if any(r[1] in ("Grren", "Red, Redd", "(Blue, Green") for r in sc["rows"]):
             probe("noise_error_rows")
         if any(re.search(r"(?<![\w/-])(red|blue|Item/Newthing)(?![\w-])", r[1]) and "(" in r[1] for r in sc["rows"]):
